@@ -540,10 +540,70 @@ Proof.
       destruct (Nat.eqb_spec (w_bk (w sv)) m); [lia|auto].
 Qed.
 
+(* ------------------------------------------------------------------ a whole query in one step *)
+Definition touch_all (b : nat) (mid : list N) (s : state) : state :=
+  fold_left (fun s o => touch b o s) mid s.
+
+Lemma touch_all_frame : forall b mid s,
+  ws (touch_all b mid s) = ws s /\ nw (touch_all b mid s) = nw s /\ bks (touch_all b mid s) = bks s.
+Proof.
+  intros b mid. unfold touch_all. induction mid as [|o mid IH]; intros s; cbn; [auto|].
+  destruct (IH (touch b o s)) as (A & B & C). rewrite A, B, C. auto.
+Qed.
+
+Lemma inv_touch_all : forall b mid s, Inv s -> bks s b = 0 ->
+  forallb (fun o => negb (is_close o) && negb (is_open o)) mid = true -> Inv (touch_all b mid s).
+Proof.
+  intros b mid. unfold touch_all. induction mid as [|o mid IH]; intros s HI Hb Hm; cbn; [exact HI|].
+  cbn in Hm. apply andb_prop in Hm. destruct Hm as [Ho Hm]. apply andb_prop in Ho. destruct Ho as [H1 H2].
+  apply negb_true_iff in H1. apply negb_true_iff in H2.
+  apply IH; auto. apply inv_touch; auto.
+Qed.
+
+Lemma inv_fupd_same : forall s i v, Inv s -> ws s i = v -> Inv (set_ws (nw s) (fupd (ws s) i v) s).
+Proof.
+  intros s i v [] Hv.
+  assert (E : forall j, fupd (ws s) i v j = ws s j).
+  { intro j. unfold fupd. destruct (Nat.eqb_spec j i); subst; auto. }
+  constructor; cbn; auto.
+  - intros j Hj. rewrite E. auto.
+  - intros j l Hj Hl. rewrite !E. auto.
+  - intros j Hj. rewrite E. auto.
+  - intros j Hj. rewrite E. auto.
+  - intros j Hj. rewrite !E. auto.
+  - intros b Hb H. apply I_orphan0; auto. intros j Hj. rewrite <- E. auto.
+Qed.
+
+Lemma dec64_succ : forall n, dec64 (n + 1) = n.
+Proof. intro n. unfold dec64. destruct (n + 1 =? 0) eqn:E; lia. Qed.
+
+Lemma step_query : forall s mid, Inv s -> ok_op s (Query mid) = true -> Inv (step (Query mid) s).
+Proof.
+  intros s mid HI Hok. cbn in Hok. apply andb_prop in Hok. destruct Hok as [Hsh Hmid].
+  apply negb_true_iff in Hsh. pose proof (served_open s HI Hsh) as Hopen.
+  pose proof (I_des s HI _ (I_served s HI)) as Hd. rewrite Nat.eqb_refl, Hsh in Hd. cbn in Hd.
+  unfold step, on_wrapper, w_query, w_new_reader, w_reader_close.
+  destruct (ws s (served s)) as [b r d] eqn:E. cbn in Hd, Hopen. subst d.
+  cbn [w_bk w_ref w_destroyable w_set_ref andb].
+  set (s3 := touch b OpFreeContext
+               (fold_left (fun s0 o => touch b o s0) mid (touch b OpFinder (touch b OpNewContext s)))).
+  assert (HI3 : Inv s3).
+  { subst s3. apply inv_touch; try reflexivity.
+    - apply (inv_touch_all b mid); auto. touches. auto.
+    - destruct (touch_all_frame b mid (touch b OpFinder (touch b OpNewContext s))) as (_ & _ & C).
+      unfold touch_all in C. rewrite C. exact Hopen. }
+  assert (Hws : ws s3 = ws s /\ nw s3 = nw s).
+  { subst s3. destruct (touch_all_frame b mid (touch b OpFinder (touch b OpNewContext s))) as (A & B & _).
+    unfold touch_all in A, B. cbn [touch set_log ws nw]. rewrite A, B. auto. }
+  destruct Hws as [W1 W2].
+  apply inv_fupd_same; auto.
+  rewrite W1, E. cbn. now rewrite dec64_succ.
+Qed.
+
 (* ------------------------------------------------------------------ all steps, all histories *)
 Lemma step_inv : forall o s, Inv s -> ok_op s o = true -> Inv (step o s).
 Proof.
-  intros o s HI Hok. destruct o as [r|r|r|c|c| |i c|].
+  intros o s HI Hok. destruct o as [r|r|r|c|c| |i c| |mid].
   - now apply step_acquire.
   - now apply step_use.
   - now apply step_release.
@@ -552,6 +612,7 @@ Proof.
   - now apply step_timeout_first.
   - now apply step_late.
   - now apply step_shutdown.
+  - now apply step_query.
 Qed.
 
 Lemma run_inv : forall ops s, Inv s -> wf_hist s ops = true -> Inv (run ops s).
